@@ -5,11 +5,13 @@ package main
 import (
 	"encoding/hex"
 	"fmt"
+	"net/netip"
 	"strings"
 
 	v3 "github.com/projectcalico/api/pkg/apis/projectcalico/v3"
 
 	confd "github.com/projectcalico/calico/confd/pkg/backends/calico"
+	"github.com/projectcalico/calico/felix/calc"
 	"github.com/projectcalico/calico/felix/config"
 	"github.com/projectcalico/calico/libcalico-go/lib/backend/encap"
 	"github.com/projectcalico/calico/libcalico-go/lib/backend/model"
@@ -117,6 +119,28 @@ func exec(h *rt.H, op string) string {
 			act = "reject"
 		}
 		return b(ui) + " " + b(uv) + " " + b(pp) + " " + act
+	case "fenv": // fenv <felix-setting> <ipip 0|1> <vxlan 0|1> <noencap 0|1> -> progIPIP progNoEncap noEncapNeeded ipipEnabled vxlanEnabled
+		c := config.New()
+		if s, ok := decode(w[1]); ok {
+			_, _ = c.UpdateFrom(map[string]string{"ProgramClusterRoutes": s}, config.DatastoreGlobal)
+		}
+		kvs := &model.KVPairList{}
+		add := func(cidr string, ipip, vxlan encap.Mode) {
+			n := cnet.MustParseCIDR(cidr)
+			kvs.KVPairs = append(kvs.KVPairs, &model.KVPair{Key: model.IPPoolKey{CIDR: netip.MustParsePrefix(cidr)}, Value: &model.IPPool{CIDR: n, IPIPMode: ipip, VXLANMode: vxlan}})
+		}
+		if w[2] == "1" {
+			add("10.1.0.0/16", encap.Always, encap.Never)
+			add("10.2.0.0/16", encap.CrossSubnet, encap.Never)
+		}
+		if w[3] == "1" {
+			add("10.3.0.0/16", encap.Never, encap.CrossSubnet)
+		}
+		if w[4] == "1" {
+			add("10.4.0.0/16", encap.Never, encap.Never)
+		}
+		ec := calc.NewEncapsulationCalculator(c, kvs)
+		return b(c.ProgramIPIPClusterRoutes()) + " " + b(c.ProgramNoEncapClusterRoutes()) + " " + b(ec.NoEncapNeeded()) + " " + b(ec.IPIPEnabled()) + " " + b(ec.VXLANEnabled())
 	case "pair": // pair <felix-setting> <bgp-setting> <ipipMode> <vxlanMode> -> felixPrograms birdPrograms
 		fi, fn, fcanon := felixBits(w[1])
 		p := pool(w[3], w[4])
@@ -227,7 +251,7 @@ func randSetting(h *rt.H) string {
 func main() {
 	h := rt.New()
 	defer h.Close()
-	h.Rule = "first the WHOLE finite table (every felix setting in {absent, 4 values, lower/upper case variants, unknown} x every bgp setting in {no BGPConfiguration, absent, 4 values, case variants, unknown} x 4x4 pool modes), then random cases of 4 ops with random settings (case variants, near misses, 'none', empty, random ASCII); " +
+	h.Rule = "first the WHOLE finite table (every felix setting in {absent, 4 values, lower/upper case variants, unknown} x every bgp setting in {no BGPConfiguration, absent, 4 values, case variants, unknown} x 4x4 pool modes), then random cases of 5 ops (incl. fenv: the real EncapsulationCalculator on pools of each class) with random settings (case variants, near misses, 'none', empty, random ASCII); " +
 		"distinct = distinct op line; non-trivial = pair/pool op"
 	run := func(ops []string, tag string) {
 		h.Case(tag)
@@ -256,7 +280,11 @@ func main() {
 	fset = append(fset, enc("bogus"), enc(""), enc("none"))
 	bset = append(bset, enc("bogus"), enc(""), enc("EnabledVXLANOnly"))
 	for _, f := range fset {
-		run([]string{"felix " + f}, "table-felix")
+		ops := []string{"felix " + f}
+		for k := 0; k < 8; k++ {
+			ops = append(ops, fmt.Sprintf("fenv %s %d %d %d", f, k&1, k>>1&1, k>>2&1))
+		}
+		run(ops, "table-felix")
 	}
 	for _, bb := range bset {
 		ops := []string{"bgp " + bb}
@@ -284,6 +312,6 @@ func main() {
 			bb = "nil"
 		}
 		im, vm := rt.Pick(h, modes), rt.Pick(h, modes)
-		run([]string{"felix " + f, "bgp " + bb, fmt.Sprintf("pool %s %s %s %s", bb, im, vm, rt.Pick(h, []string{"4", "6"})), fmt.Sprintf("pair %s %s %s %s", f, bb, im, vm)}, "gen")
+		run([]string{"felix " + f, fmt.Sprintf("fenv %s %d %d %d", f, h.Intn(2), h.Intn(2), h.Intn(2)), "bgp " + bb, fmt.Sprintf("pool %s %s %s %s", bb, im, vm, rt.Pick(h, []string{"4", "6"})), fmt.Sprintf("pair %s %s %s %s", f, bb, im, vm)}, "gen")
 	}
 }
